@@ -705,6 +705,8 @@ Section Bodies.
         let k := comps p in
         if is_nil k || negb (str_eqb op (E "mkfile")) then (HUnmodelled, w)
         else env_put k (NFile (fold_left (fun a ch => a * 10 + (ch - 48)) c 0) 420) w
+    | [] | [_] => (HOther, w)      (* args[0] / args[1]: IndexError in the pseudo-helper (a stream cut
+                                     after the request header) -> "internal failure" *)
     | _ => (HUnmodelled, w)
     end.
 
